@@ -130,11 +130,17 @@ def gen_cfg(rs, lp_kind, np_kind, labels="int", n_arms=None, deterministic=False
     stress = int(pick(rs, [0, 1, 2, 3, 4, 5])) if (rs.integers(5) == 0 and lp_kind not in LIN_KINDS) else None
     # the caller's habitual container for contexts (a quarter of the histories have one)
     house = pick(rs, ["series", "series", "narrow", "frame", "list", "i8", "f4", "fortran"]) if rs.integers(4) == 0 else None
+    lp = gen_lp(rs, lp_kind, deterministic, binarizer)
+    npd = gen_np(rs, np_kind, n_arms, with_probs)
+    seed = int(seed if seed is not None else pick(rs, [0, 7, 42, 123456, 2 ** 31 - 1, int(rs.integers(10 ** 6))]))
+    if lp.get("epsilon", 0) > 0 and rs.integers(3) == 0:
+        # an exploration rate that is bit-for-bit one of the first uniforms of the bandit's own stream: an exact tie in
+        # 'draw < epsilon' (the boundary value of that comparison), which the documented reading resolves as 'exploit'
+        from mabwiser.utils import create_rng
+        lp["epsilon"] = float(create_rng(seed).rand(6)[int(rs.integers(6))])
+        lp["epsilon_on_own_stream"] = True
     return {"arms": arms, "labels": labels, "reward_stress": stress, "x_house": house,
-            "lp": gen_lp(rs, lp_kind, deterministic, binarizer),
-            "np": gen_np(rs, np_kind, n_arms, with_probs),
-            "seed": int(seed if seed is not None else pick(rs, [0, 7, 42, 123456, 2 ** 31 - 1, int(rs.integers(10 ** 6))])),
-            "n_jobs": n_jobs, "backend": backend}
+            "lp": lp, "np": npd, "seed": seed, "n_jobs": n_jobs, "backend": backend}
 
 
 def make_lp(d):
@@ -361,7 +367,8 @@ def apply_op(m, op):
         d = np.asarray(op["d"])
         r = np.asarray(op["r"], dtype={"bool": bool, "int64": np.int64}.get(op.get("r_dtype"), float))
         if op.get("X") is not None:
-            f(d, r, enc_X(op["X"], op.get("x_enc"), training=True))
+            X = enc_X(op["X"], op.get("x_enc"), training=True) if len(op["X"]) else np.zeros((0, int(op.get("nf", 1))))
+            f(d, r, X)
         else:
             f(d, r)
         return None
